@@ -342,4 +342,10 @@ def rule_flatten_order(ck, modules=('csep.core.poisson_evaluations', 'csep.core.
     (o.ok() if n else o.unknown('no flattening call found'))
 
 
-RULES = [rule_kernel, rule_callsites, rule_normalisation, rule_public, rule_counts, rule_simulated_catalogs, rule_flatten_order]
+def rule_own_magnitudes_shared(ck):
+    from . import c11
+    ck.clause('shared C11-D5: a forecast bins magnitudes with its own edges')
+    c11.rule_own_magnitudes(ck)
+
+
+RULES = [rule_kernel, rule_callsites, rule_normalisation, rule_public, rule_counts, rule_simulated_catalogs, rule_flatten_order, rule_own_magnitudes_shared]
